@@ -409,6 +409,7 @@ pub fn run(ctx: &mut Ctx) {
         let mut rng = ctx.rng.fork();
         check_doc_accessors(ctx, &gen::huge_payload_doc(), &mut rng);
     }
+    let mon = super::routes::Monitor::new(super::routes::ACCESSORS);
     let n = if ctx.miri { ctx.miri_cases(3) } else { ctx.budget(400_000, 8_000_000) };
     for i in 0..n {
         if !ctx.next_case() {
@@ -423,6 +424,10 @@ pub fn run(ctx: &mut Ctx) {
             _ => gen::doc(&mut rng, &gen::DOC_DEFAULT),
         };
         check_doc_accessors(ctx, &t, &mut rng);
+        if i % 3 == 1 && t.nodes() < 300 {
+            let args = super::routes::plain_args(&t, &mut rng);
+            mon.check(ctx, &t, &t, &args, &mut rng);
+        }
         ctx.sample(|| t.show());
     }
 }
